@@ -303,7 +303,8 @@ namespace nmtools::index
             }();
             auto s = compute_range(shape_i,start,stop,step);
             auto step_ = compute_step(step);
-            return static_cast<size_type>(math::constexpr_ceil(static_cast<float>(s) / step_));
+            // integer ceil division (s >= 0, step_ >= 1): a float quotient loses extents above 2^24
+            return static_cast<size_type>(((nm_size_t)s + (nm_size_t)step_ - 1) / (nm_size_t)step_);
         };
 
         auto res = result_t {};
@@ -822,7 +823,8 @@ namespace nmtools::index
                 // finally the resulting shape for corresponding indices
                 // is simply the range divided by the step
                 // use constexpr_ceil to allow clang compile this
-                at(res,r_i++) = static_cast<size_type>(math::constexpr_ceil(static_cast<float>(s) / step));
+                // (integer ceil division, s >= 0 and step >= 1: a float quotient loses extents above 2^24)
+                at(res,r_i++) = static_cast<size_type>(((nm_size_t)s + (nm_size_t)step - 1) / (nm_size_t)step);
             } else /* if constexpr (meta::is_index_v<slice_t>) */ {
                 // only reduce the dimension,
                 // doesn't contributes to shape computation
